@@ -382,6 +382,7 @@ class FnDirective:
         self.lineno = lineno
         self.contract = []
         self.loops = {}     # k -> lines
+        self.optional_loops = set()
         self.rws = []       # (rule, n, from, to, regex?)
         self.ins = []       # (where, k, pattern, lines)
         self.attrs = []     # verifier attributes placed before the signature (rule A5)
@@ -455,6 +456,9 @@ def render_fn(d, log):
     if d.loops:
         offs = find_loops(body)
         for k, lines in d.loops.items():
+            if (k < 1 or k > len(offs)) and k in d.optional_loops and len(offs) == 0:
+                log.append(dict(rule='A2', fn=d.qual, what=f'optional loop annotation #{k} skipped: the function has no loop'))
+                continue
             if k < 1 or k > len(offs):
                 raise LostAnchor(f'{d.qual}: loop #{k} not found (function has {len(offs)} loops)')
             inserts.append((offs[k - 1], '\n' + '\n'.join(lines) + '\n'))
@@ -653,6 +657,8 @@ def generate(unit_path):
                 w2 = s2[3:].split()
                 if w2[0] == 'loop':
                     k = int(w2[1])
+                    if 'optional' in w2[2:]:
+                        d.optional_loops.add(k)
                     d.loops[k] = []
                     mode = ('loop', k)
                 elif w2[0] in ('rw', 'rwx'):
